@@ -20,8 +20,8 @@ ENCODED = ['Parser.parse_implicit_document_start / parse_document_start / proces
            'yaml.scan / parse / compose_all / load_all / safe_load / emit / dump (global-state snapshot around every explored call)']
 BOUNDS = {'quick': 'parser: pre-state of tag_handles in {empty, the DEFAULT_TAGS object, foreign handles} x yaml_version x <=2 directive tokens of 5 kinds x explicit/implicit '
                    'document; composer / constructor / representer / serializer / emitter: arbitrary pre-state from a table, one document; global snapshot around '
-                   'load/scan/parse/compose/dump/emit of every str of len<=2 (errors included); two-document streams over a 12-document corpus (all ordered pairs)',
-          'thorough': 'global snapshot with len<=3'}
+                   'load/scan/parse/compose/dump/emit of every str of len<=1 and of a 12-document corpus (errors included); two-document streams over a 12-document corpus (all ordered pairs)',
+          'thorough': 'global snapshot with len<=2'}
 OUTSIDE = 'C classes internal state (libyaml parser/emitter objects)'
 ASSUMPTIONS = ['the token / event sources of the one-step harnesses are stubs', 'the global snapshot covers every dict/list/set attribute of the modules and classes of the yaml package']
 
@@ -71,6 +71,18 @@ def diff_snapshot(a, b):
         if k not in a:
             return 'added %s' % '.'.join(map(str, k))
     return None
+
+
+def calls_corpus(i: int, which: int) -> str:
+    """the same over the corpus documents (directives, anchors, tags, errors) and their two-document streams"""
+    n = len(CORPUS)
+    for a in range(n):
+        if i == a:
+            return calls(CORPUS[a], which)
+    for a in range(n):
+        if i == n + a:
+            return calls('--- ' + CORPUS[a] + '\n--- ' + CORPUS[(a * 5 + 3) % n] + '\n', which)
+    return 'ok'
 
 
 def calls(s: str, which: int) -> str:
@@ -331,11 +343,13 @@ def after_failure(k: int) -> str:
 
 def jobs(tier):
     q = tier == 'quick'
-    L = 2 if q else 3
+    L = 1 if q else 2
     js = []
     for w in range(8):
         js.append(Job('calls/%d' % w, calls, [lambda s, which, _w=w: which == _w and len(s) <= (L if _w in (0, 1, 2, 3) else 1)],
                       budget=200 if q else 1500, bounds='API call %d on every str of len<=%d, global snapshot before/after' % (w, L if w < 4 else 1)))
+    js.append(Job('calls-corpus', calls_corpus, [lambda i, which: 0 <= i < 2 * len(CORPUS) and 0 <= which <= 7], budget=200,
+                  bounds='8 API calls on %d corpus documents and %d two-document streams, global snapshot before/after' % (len(CORPUS), len(CORPUS))))
     for pre in range(3):
         js.append(Job('parser-reset/pre%d' % pre, parser_reset,
                       [lambda pre, ver, nd, d0, d1, explicit, _p=pre: pre == _p and 0 <= nd <= 2 and 0 <= d0 <= 4 and 0 <= d1 <= 4],
